@@ -10,7 +10,7 @@ TRUSTED = TRUSTED_EXEC
 ASSUMPTIONS = ["P-core: resolver errors, resolver panics and link failures are in the model's fault plan and the theorems hold for every "
                "plan and schedule; context cancellation and goroutine liveness after return are runtime facts that the model does not "
                "contain: they are observed on the implementation (watchdog, runtime.NumGoroutine back to baseline), not proved",
-               "short reads are delivered to the parser as ordinary (possibly invalid) sources and are treated as a resolver-level fault only through the parse result"]
+               "a source reader that fails or panics after K bytes is, for the model, a file that cannot be obtained (fault class of a resolver error / panic); the implementation side enumerates every K"]
 
 KINDS = ["missing", "err", "panic", "link"]
 
@@ -26,17 +26,23 @@ def run(ctx):
                     for kind in KINDS:
                         for par in (1, 2):
                             cases.append((n, imports, req, par, {f: kind}, 0, 0))
+    # a reader that fails (or panics) after K bytes, for every K up to past the end of the file, on two small graphs: the cut can
+    # fall on a declaration boundary, where the bytes read so far are a valid file by themselves
+    for (n, imports, req, f) in ((1, [[]], [0], 0), (2, [[1], []], [0], 1), (3, [[1, 2], [2], []], [0, 2], 2)):
+        for K in range(0, ctx.budget(100, 130)):
+            for kind in ("read", "readpanic") if K % 3 == 0 or ctx.tier != "quick" else ("read",):
+                cases.append((n, imports, req, 1 + K % 2, {f: "%s:%d" % (kind, K)}, 0, 0))
     for k in range(ctx.budget(900, 30000)):
         n = rng.range(2, 8)
         imports = random_graph(rng, n, rng.range(15, 50), rng.chance(1, 3))
         req = rng.shuffle([d for d in range(n) if rng.chance(1, 2)] or [0])
         faults = {}
         for _ in range(rng.choice([0, 1, 1, 1, 2, 3])):
-            faults[rng.below(n)] = rng.choice(KINDS)
+            faults[rng.below(n)] = rng.choice(KINDS) if rng.chance(5, 6) else "%s:%d" % (rng.choice(["read", "readpanic"]), rng.below(120))
         cancel = rng.range(1, 3000) if rng.chance(1, 5) else 0
         cases.append((n, imports, req, rng.choice([1, 2, 8]), faults, rng.range(1, 1 << 30) if rng.chance(1, 2) else 0, cancel))
     ctx.rule = ("fault plans: every digraph on <= %d files x request {[0], all} x every single fault (file x {missing, resolver error, "
-                "resolver panic, link error}) x parallelism {1,2}; random graphs of 2..8 files with 0..3 faults, random yields, and in "
+                "resolver panic, link error}) x parallelism {1,2}; a source reader that fails / panics after K bytes for every K; random graphs of 2..8 files with 0..3 faults, random yields, and in "
                 "1/5 of them cancellation after 1..3000 us; distinct = distinct (graph, request, parallelism, plan, cancel); "
                 "non-trivial = plan has a fault or a cancellation" % nmax)
     ins = [json_case(n, imp, req, par, faults, ys, timeout_ms=8000, **({"cancel_after_us": c} if c else {}))
@@ -46,7 +52,7 @@ def run(ctx):
     for c, i, o in zip(cases, ins, outs):
         n, imports, req, par, faults, ys, cancel = c
         ctx.count((n, imports, req, par, sorted(faults.items()), cancel), bool(faults) or bool(cancel),
-                  "cancel" if cancel else ("fault:" + "+".join(sorted(set(faults.values()))) if faults else "no-fault"))
+                  "cancel" if cancel else ("fault:" + "+".join(sorted(set(v.split(":")[0] for v in faults.values()))) if faults else "no-fault"))
         sp = spec(n, imports, req, faults)
         if "crash" in o or "panic" in o:
             ctx.violation("harness-crash", "compile crashed the harness process", {"input": i, "observed": o})
@@ -65,7 +71,7 @@ def run(ctx):
         if sp["ok"] and not o["ok"] and not (cancel and o.get("ctx_err")):
             ctx.violation("spurious-failure", "fault-free acyclic input failed", {"input": i, "observed": o, "spec": sp})
         rf = {x: faults[x] for x in sp["reach"] if faults.get(x)}
-        if not cancel and len(rf) == 1 and not sp["cycle"] and list(rf.values())[0] == "panic":
+        if not cancel and len(rf) == 1 and not sp["cycle"] and mkind(list(rf.values())[0]) == "panic":
             x = list(rf.keys())[0]
             if o.get("panic_file") != "f%d.proto" % x or o.get("panic_value") != "injected panic %d" % x:
                 ctx.violation("panic-not-surfaced", "the only fault is a resolver panic but the error does not wrap PanicError{File, Value}",
